@@ -177,6 +177,17 @@ class Run:
         if r[0] == "ok":
             if must_reject:
                 sig = {"kind": "tampered-accepted", "fault": what.split(":")[0]}
+                if what.split(":")[0] in ("front-truncate-signature", "front-strip-zeros", "leading-zero-signature-drop-leading-zero"):
+                    # which algorithm: from the protected header of the input
+                    try:
+                        seg = replay["token"].split(".")[0] if "token" in replay else replay["value"].get("protected", "")
+                        alg_ = json.loads(b64u_dec(seg.encode())).get("alg", "")
+                    except Exception:
+                        alg_ = ""
+                    if alg_.startswith("PS"):
+                        # RSASSA-PSS through pyca/OpenSSL accepts a signature whose leading zero octets were cut off
+                        # (RFC 8017 8.1.2 step 1 demands length k): reported under its own signature
+                        sig = {"kind": "short-signature-accepted", "family": "PSS"}
                 if what.startswith("unprotected-b64"):
                     sig = dict(SIG_B64 if "present" in what else SIG_B64_RESIDUAL)
                 ctx.violation(sig, "a JWS derived from a valid one by [%s] was returned as verified (payload %r)" % (
@@ -294,6 +305,9 @@ def run(ctx):
             lens = range(0, L) if (first or not quick) and L <= 140 else sorted(set([0, 1, L // 2, L - 1] + rng.sample(range(L), 3)))
             for n in lens:
                 emit(hraw, praw, sraw[:n], "truncate-signature:%d" % n, coq=(n % 4 == 0 or n in (0, 1, L - 1)))
+            for n in (1, 2, 3):
+                emit(hraw, praw, sraw[n:], "front-truncate-signature:%d" % n)
+            emit(hraw, praw, sraw.lstrip(b"\x00") if sraw[:1] == b"\x00" else sraw[1:], "front-strip-zeros")
             for ext in (b"\x00", b"\x00\x00", bytes([rng.randrange(256)])):
                 emit(hraw, praw, sraw + ext, "extend-signature:%d" % len(ext))
                 emit(hraw, praw, ext + sraw, "prefix-signature:%d" % len(ext))
@@ -696,6 +710,36 @@ def run(ctx):
                 return (r_.to_bytes(_L, "big") + s_.to_bytes(_L, "big"))[1:]
             for form in ("raw", "der", "long", "short"):
                 run_param(name, lambda si, _f=form: ecs(si, _f), form == "raw", "ecdsa-encoding:%s:%s" % (name, form), J.pubkey_of(k), form != "raw")
+
+        # ------------------------------------------------------------------
+        # signatures whose FIRST octet is 0x00 (searched: sign numbered payloads, ~1/256): cutting
+        # leading octets off / prepending 00 must be rejected (no re-padding to the modulus / curve size)
+        # ------------------------------------------------------------------
+        for alg, kn in (("RS256", "rsa"), ("RS512", "rsa"), ("PS256", "rsa"), ("ES256", "p256"), ("ES512", "p521"), ("EdDSA", "ed25519"), ("HS256", "oct32")):
+            k = K[kn]
+            pub = J.pubkey_of(k)
+            found = None
+            for i_ in range(ctx.scale(2500, 6000)):
+                t_ = jws.serialize_compact({"alg": alg}, b"n%d" % i_, k, [alg])
+                sg_ = b64u_dec(t_.rsplit(".", 1)[1].encode())
+                if sg_[:1] == b"\x00":
+                    found = (t_.encode(), b"n%d" % i_, sg_)
+                    break
+            rec.take()
+            ctx.coverage.setdefault("leading_zero_signature_found", {})[alg] = found is not None
+            if not found:
+                continue
+            tok, pl, sg_ = found
+            hs_, ps_, ss_ = tok.split(b".")
+            hdr = {"alg": alg}
+            R.des_compact(tok, pub, [alg], False, (hdr, pl), "valid")
+            nz = len(sg_) - len(sg_.lstrip(b"\x00"))
+            for name, sig2 in [("drop-leading-zero:%d" % n, sg_[n:]) for n in range(1, nz + 1)] + [("drop-leading:%d" % (nz + 1), sg_[nz + 1:]),
+                               ("prepend-zero", b"\x00" + sg_), ("move-zero-to-end", sg_[1:] + b"\x00")]:
+                t2 = hs_ + b"." + ps_ + b"." + b64u(sig2)
+                R.des_compact(t2, pub, [alg], True, (hdr, pl), "leading-zero-signature-%s" % name)
+                R.des_json({"payload": ps_.decode(), "protected": hs_.decode(), "signature": b64u(sig2).decode()}, pub, [alg], True, ([hdr], pl),
+                           "leading-zero-signature-%s" % name, coq=False)
 
         # ------------------------------------------------------------------
         # wrong keys that SHARE METADATA with the right key, over HISTORIES: after a successful
